@@ -50,6 +50,10 @@ class InfeasibleEx(Exception):
     pass
 
 
+class DisabledEx(InfeasibleEx):
+    """The event chosen by the driver cannot fire in this state (e.g. terminated Fuse)."""
+
+
 class Frame:
     def __init__(self, fd, module, self_ty):
         self.fd = fd
@@ -560,6 +564,8 @@ class Interp:
                     return True
             return False
         if k == 'PTuple':
+            if not pat['elems'] and v is UNIT:
+                return True
             if not isinstance(v, RTuple):
                 raise Unsupported('tuple pattern on %r' % (v,), pat)
             elems = pat['elems']
@@ -1048,7 +1054,7 @@ class Interp:
         if isinstance(f, Opaque) and f.tag == 'Future':
             kind = f.get('kind')
             if kind == 'call':
-                return self.call_fn(f.get('fd'), list(f.get('args')), self_arg=f.get('self_arg'), node=node)
+                return self.call_fn(f.get('fd'), list(f.get('args').items), self_arg=f.get('self_arg'), node=node)
             if kind == 'block':
                 fr = Frame(f.get('fd'), f.get('module'), f.get('self_ty'))
                 fr.scopes = list(f.get('scopes')) + [{}]
@@ -1082,7 +1088,7 @@ class Interp:
             args = [self.eval(x) for x in e['args']]
             if fd is not None:
                 if fd.is_async:
-                    return Opaque('Future', kind='call', fd=fd, args=tuple(args), self_arg=None)
+                    return Opaque('Future', kind='call', fd=fd, args=RTuple(args), self_arg=None)
                 return self.call_fn(fd, args, node=e)
             return self.lib.call_path('::'.join(segs), args, e, generic_args=func['path']['segs'])
         f = self.eval(func)
@@ -1122,7 +1128,7 @@ class Interp:
                     recv = [p for p in fd.node['inputs'] if p['self']]
                     if recv and not recv[0]['ref']:
                         sa = self.load(tgt)     # `self` by value: the future owns the receiver
-                    return Opaque('Future', kind='call', fd=fd, args=tuple(args), self_arg=sa)
+                    return Opaque('Future', kind='call', fd=fd, args=RTuple(args), self_arg=sa)
                 return self.call_fn(fd, args, self_arg=tgt, node=node)
         return self.lib.call_method(tgt, v, method, args, node)
 
@@ -1187,6 +1193,22 @@ class Interp:
 
     def _run_select_arm(self, e, arm_idx, value):
         arm = e['arms'][arm_idx]
+        # a completed Fuse<user future> becomes terminated; a terminated one can never fire
+        fut = arm['fut']
+        if self._is_pure_place(fut):
+            r = self.eval_place(fut)
+            r = self.as_ref(self.load(r)) if isinstance(self.load(r), Ref) else r
+            fv = self.load(r)
+            if isinstance(fv, Union):
+                fv = self.resolve_union(fv)
+            if isinstance(fv, Opaque) and fv.tag == 'Fuse':
+                inner = fv.get('inner')
+                if isinstance(inner, Union):
+                    inner = self.resolve_union(inner)
+                if inner is None:
+                    raise DisabledEx()
+                self.fired_future = inner
+                self.store_at(r, Opaque('Fuse', inner=None))
         self.frame.scopes.append({})
         try:
             if not self.match_pat(arm['pat'], value, None):
@@ -1206,6 +1228,8 @@ class Interp:
         fr = Frame(fd, fd.module, fd.impl_ty)
         self.frames.append(fr)
         for name, v in env.items():
+            if isinstance(v, RStruct) and v.ty == '$ref':
+                v = Ref(self.alloc(v.fields[0]), ())
             self.bind(name, v)
         self.skipping = select_id
         self.resume = {'arm': arm, 'value': value}
